@@ -384,7 +384,12 @@ def _resolve_import(rule, target):
         return
 
     # add all rules of @import to current sheet
-    target.add(css.CSSComment(cssText='/* START @import "%s" */' % rule.href))
+    # "*/" in the href would end the comment
+    target.add(
+        css.CSSComment(
+            cssText='/* START @import "%s" */' % rule.href.replace('*/', '* /')
+        )
+    )
 
     try:
         # nested imports
